@@ -22,10 +22,11 @@ pub struct C15;
 /// `A` is a closed prefix: ends in a consumed ';' or statement-level comment and leaves the lexer
 /// in its initial configuration (a *subset* of the property's premise, see DESIGN C15)
 pub fn is_closed(a: &str, d: &Dump) -> bool {
+    // (a prefix with diagnosed faults that the lexer has recovered from qualifies too)
     if !d.verif.end_is_initial() {
         return false;
     }
-    is_closed_syntactically(a, d)
+    closed_tail(a, d)
 }
 
 /// the part of closedness that does not rely on the lexer's own end-of-input snapshot; used
@@ -33,9 +34,10 @@ pub fn is_closed(a: &str, d: &Dump) -> bool {
 /// they end in the initial configuration, so on a correct lexer nothing is lost, and a lexer
 /// that leaks state past such a prefix is not allowed to hide behind its own snapshot)
 pub fn is_closed_syntactically(a: &str, d: &Dump) -> bool {
-    if !d.errs.is_empty() {
-        return false;
-    }
+    d.errs.is_empty() && closed_tail(a, d)
+}
+
+fn closed_tail(a: &str, d: &Dump) -> bool {
     let n = d.toks.len();
     if n < 2 {
         return a.is_empty();
@@ -288,6 +290,9 @@ fn check_pair(a: &str, b: &str, by_construction: bool, gen: &'static str, primar
         if !(if by_construction { is_closed_syntactically(a, &da) } else { is_closed(a, &da) }) {
             vd.discard = Some("A is not a closed prefix");
             return;
+        }
+        if v == Variant::Rel && primary && !da.errs.is_empty() {
+            vd.label("A-has-recovered-errors");
         }
         let mut exp = expected_concat(a, &da, &db);
         exp.verif = dab.verif.clone();
